@@ -69,6 +69,27 @@ CHECKS = {
         note="caps are reported in the evidence (exhaustive=false); K4 is matched by configuration split=aux + ValueError missing params only",
         design="§4 C17",
     ),
+    "C03": dict(
+        engine="E1-family-explorer",
+        technique="bounded exhaustive enumeration of model programs x all grid states as agents x all one-hot (identifying) transition arrays, real simulation; every (agent, period pair, state) checked against the reference evaluation of the transition functions",
+        text="Every model of Family_1(B0) and Family_2 on the interaction-prone features is simulated with every in-space grid state and an off-grid copy as agents (3 seeds for stochastic models). For every agent and every consecutive period pair the deterministic next states must equal the reference evaluation of the transition function at that agent's own states, reported choices, period and parameters; period-0 columns must equal the supplied arrays. For stochastic states every one-hot transition array (all of them up to 64; 8 for distance-2 models in the quick tier) turns the draw into a deterministic function of the selected row, so the row selection (dependency order, period index, agent alignment) is decided exactly; an array with zero entries checks that zero-probability labels never occur.",
+        note="trusted: reference resolver; integers exact, floats 1e-12",
+        design="§4 C03",
+    ),
+    "C06": dict(
+        engine="E1-family-explorer",
+        technique="bounded exhaustive enumeration of model programs with agents on every grid state; differential oracle between lcm's own solve arrays and simulated values, and between solve_and_simulate and simulate(solve) frames",
+        text="For Family_1(B0), Family_2 on the interaction-prone features and Family_1 of the fully discrete base (thorough: Family_2 of both), under two parameter valuations, agents are placed on every in-space grid state; the simulated value of every row whose state lies on the grid (all rows for fully discrete models) must equal the entry of lcm's own solved array at that state, and the frame of target solve_and_simulate must equal cell for cell the frame of simulate(vf_arr_list=solve(params)) from three separate get_lcm_function calls.",
+        note="no reference values involved; the layout contract (checked by C05) locates the entry; 1e-12 relative for values",
+        design="§4 C06",
+    ),
+    "C13": dict(
+        engine="E1-family-explorer",
+        technique="exhaustive enumeration of all 64 subsets of additional targets x agents {1,2,5} x T 1..4 on three base models plus empty/full/singleton sets on Family_1; every row and column of the returned frame checked",
+        text="On three base models (continuous, fully discrete, stochastic) with T in 1..4 and 1, 2 or 5 agents ALL 64 subsets of six additional targets (utility, two chained auxiliary functions, constraint, discrete and continuous deterministic transition) are requested, and on every Family_1 model the empty set, the full target set and every singleton: the frame must have exactly T*n rows indexed by the period-major product with the documented names, the exact column set, _period == t, row (t,i) continuing row (t-1,i) of the same agent (law-of-motion chain and C02 row oracle for the value/choice columns), and every target column must equal the reference evaluation of that model function at the row.",
+        note="filters are not part of the target alphabet (the property does not list them); target columns compared at 1e-12",
+        design="§4 C13",
+    ),
 }
 
 NOT_APPLICABLE = {
